@@ -733,6 +733,7 @@ fn main() {
             pending_locks: vec![],
             pending_raii: vec![],
             block_moved: None,
+            hoisted: vec![],
             brk_stack: vec![],
             self_rename: None,
             backparam: backparam.clone(),
